@@ -24,8 +24,14 @@ Lemma valid_regb_ok regs : forallb valid_regb regs = true -> Forall valid_reg re
 Proof.
   intros H. rewrite forallb_forall in H. split; apply Forall_forall; intros [a b] Hr; specialize (H (a, b) Hr); unfold valid_regb in H;
     cbn [fst snd] in *; apply andb_prop in H; destruct H as [H H3]; apply andb_prop in H; destruct H as [H1 H2].
-  - split; cbn [fst snd]; [intros E; subst a; discriminate H1|intros E; subst b; discriminate H2].
+  - unfold valid_reg. cbn [fst snd]. intros E; subst a; discriminate H1.
   - intros E. subst b. discriminate H3.
+Qed.
+Lemma valid_regb_known regs : forallb valid_regb regs = true -> Forall (fun r : Base.str * ttype => snd r <> Unknown) regs.
+Proof.
+  intros H. rewrite forallb_forall in H. apply Forall_forall; intros [a b] Hr; specialize (H (a, b) Hr); unfold valid_regb in H;
+    cbn [fst snd] in *; apply andb_prop in H; destruct H as [H H3]; apply andb_prop in H; destruct H as [H1 H2].
+  intros E; subst b; discriminate H2.
 Qed.
 
 Lemma last_type_in regs q : last_type regs q = Unknown \/ In (last_type regs q) (map snd regs).
